@@ -108,7 +108,14 @@ def skipped_names() -> list[str]:
 
 
 # ------------------------------------------------------------------ Union.jinja2 → Model.GraphqlOrder.UTpl
-UNION_TEMPLATE = REPO / "src" / "datamodel_code_generator" / "model" / "template" / "Union.jinja2"
+TEMPLATE_DIR = REPO / "src" / "datamodel_code_generator" / "model" / "template"
+
+
+def union_template_path():
+    """the template the union model renders with (GraphQLParser's default data_model_union_type)"""
+    from datamodel_code_generator.model.union import DataTypeUnion
+
+    return TEMPLATE_DIR / DataTypeUnion.TEMPLATE_FILE_PATH
 
 
 class _Lexer:
@@ -289,7 +296,7 @@ def union_template() -> tuple[str, list[str]]:
     import jinja2
 
     lx = _Lexer()
-    tree = jinja2.Environment().parse(UNION_TEMPLATE.read_text())  # noqa: S701
+    tree = jinja2.Environment().parse(union_template_path().read_text())  # noqa: S701
     items, _ = _walk(tree.body, "code", lx, None)
     names = sorted(set(re.findall(r"[A-Za-z_][A-Za-z_0-9]*", "".join(lx.code_text))))
     return _tpl(items), names
